@@ -377,13 +377,20 @@ class Probe(object):
         self.exposed_e = "E"
 
 
+# one caller-owned dict object handed to several connections (a caller may well reuse its settings): what each connection
+# does with its configuration - e.g. the blanket permissions of a classic-mode service - must stay its own
+SHARED = {"allow_public_attrs": True}
+SHARED_COPY = dict(SHARED)
 KINDS = {
     "default": (lambda: _rpyc.VoidService(), {}),
     "classic": (lambda: SlaveService(), {}),
     "custom": (lambda: _rpyc.VoidService(), {"allow_public_attrs": True, "allow_setattr": True}),
+    "custom-shared-dict": (lambda: _rpyc.VoidService(), SHARED),
+    "classic-shared-dict": (lambda: SlaveService(), SHARED),
 }
 # (getattr pub, getattr _priv, getattr e (twin exposed_e), setattr pub)
-EXPECT = {"default": (False, False, True, False), "classic": (True, True, False, True), "custom": (True, False, True, True)}
+EXPECT = {"default": (False, False, True, False), "classic": (True, True, False, True), "custom": (True, False, True, True),
+          "custom-shared-dict": (True, False, True, False), "classic-shared-dict": (True, True, False, True)}
 
 
 def probe_conn(peer):
@@ -433,6 +440,10 @@ def run_isolation(hists):
                 if got != EXPECT[kd]:
                     viol.append(("connection-policy-changed-by-another-connection:%s" % kd,
                                  "history %r: %s connection answers %r, its own policy says %r" % (list(h), kd, got, EXPECT[kd])))
+            if SHARED != SHARED_COPY:
+                viol.append(("callers-configuration-dict-mutated", "history %r: %r" % (list(h), SHARED)))
+                SHARED.clear()
+                SHARED.update(SHARED_COPY)
             if dict(protocol.DEFAULT_CONFIG) != snapshot:
                 viol.append(("default-configuration-mutated", "history %r" % (list(h),)))
                 protocol.DEFAULT_CONFIG.clear()
